@@ -21,6 +21,8 @@
 //!   build <cpb> <mvs> <mts> <prefer_pure> I <n> { <coin> MA }* O <n> { OUT }* C ADDR DAT
 //!        -> ok <l0> <fee> <full_size> <nreq> <nout> { <coin> <size> <vsize> }* | { MA of every change output }*
 //!           | err:addout | err:change | toobig <full_size> | err:build
+//!   txsize <mts> I <n> { <coin> MA }* O <n> { OUT }* F <fee>     (fee set by hand, no change; mainnet price)
+//!        -> ok <full_size> <bytes of build_tx_unsafe()> | toobig <full_size> | err:addout | err:size
 //! Everything the size code does not look at (hash bytes, key bytes, asset-name bytes) is derived from the
 //! position of the item, so a case replays exactly.
 #![allow(deprecated)]
@@ -325,7 +327,8 @@ fn exec(toks: &[String]) -> String {
             if r.is_err() { return "err:change".into(); }
             let full = tb.full_size().map(|x| x as i128).unwrap_or(-1);
             match tb.build_tx() {
-                Err(_) => { if full > mts as i128 { format!("toobig {}", full) } else { "err:build".into() } }
+                Err(e) => { if std::env::var("VERIF_DEBUG").is_ok() { eprintln!("build_tx: {}", e.to_string()); }
+                            if full > mts as i128 { format!("toobig {}", full) } else { "err:build".into() } }
                 Ok(tx) => {
                     let body = tx.body(); let os = body.outputs();
                     let l0 = in_total.saturating_sub(out_total);
@@ -335,6 +338,34 @@ fn exec(toks: &[String]) -> String {
                     for i in outs.len()..os.len() { s.push_str(&format!(" {}", show_ma_shape(&shape_of(&os.get(i).amount().multiasset())))); }
                     s
                 }
+            }
+        }
+        "txsize" => {
+            let mts = p.num() as u32;
+            p.expect("I");
+            let nin = p.us();
+            let ins: Vec<(u64, MaShape)> = (0..nin).map(|_| { let c = p.num(); let m = p.ma(); (c, m) }).collect();
+            p.expect("O");
+            let nout = p.us();
+            let outs: Vec<OutD> = (0..nout).map(|_| p.out()).collect();
+            p.expect("F");
+            let fee = p.num();
+            let mut tb = TransactionBuilder::new(&cfg(4310, 5000, mts, false));
+            let src = mk_addr("b", 57, 8).unwrap();
+            for (i, (c, m)) in ins.iter().enumerate() {
+                let v = match mk_value(*c, m) { Some(v) => v, None => return BAD.into() };
+                let mut h = vec![0x2Du8; 32]; h[0] = i as u8;
+                if tb.add_regular_input(&src, &TransactionInput::new(&TransactionHash::from_bytes(h).unwrap(), i as u32), &v).is_err() { return BAD.into(); }
+            }
+            for (i, od) in outs.iter().enumerate() {
+                let o = match mk_output(od, 20 + i as u8) { Some(o) => o, None => return BAD.into() };
+                if tb.add_output(&o).is_err() { return "err:addout".into(); }
+            }
+            tb.set_fee(&bn(fee));
+            let full = match tb.full_size() { Ok(x) => x, Err(_) => return "err:size".into() };
+            match tb.build() {
+                Ok(_) => { let txlen = tb.build_tx_unsafe().map(|t| t.to_bytes().len()).unwrap_or(0); format!("ok {} {}", full, txlen) }
+                Err(_) => format!("toobig {}", full),
             }
         }
         _ => BAD.into(),
@@ -515,8 +546,8 @@ fn gen(dir: &str) {
             outs.push(od);
         }
         let (ck, cl) = if stream == 4 { // long change addresses for the top-up clause
-            let extra = r.range(1, 4); let vals = [u64::MAX, u64::MAX, if extra >= 2 { u64::MAX } else { (1u64 << 56) - 1 }];
-            let _ = vals; match extra { 1 => ("p:18446744073709551615:18446744073709551615:72057594037927935".to_string(), 58), _ => ("p:18446744073709551615:18446744073709551615:18446744073709551615".to_string(), 59) }
+            let extra = r.range(1, 4); let vals = [u64::MAX, u64::MAX, if extra >= 2 { u64::MAX } else { (1u64 << 63) - 1 }];
+            let _ = vals; match extra { 1 => ("p:18446744073709551615:18446744073709551615:9223372036854775807".to_string(), 58), _ => ("p:18446744073709551615:18446744073709551615:18446744073709551615".to_string(), 59) }
         } else { gen_addr(&mut r) };
         let dat = if r.chance(1, 4) { gen_dat(&mut r, false) } else { plain_dat() };
         let full_guess = 300 + 100 * (nin + nout) as u64;
@@ -527,6 +558,26 @@ fn gen(dir: &str) {
         for o in &outs { line.push_str(&format!(" {}", show_out(o))); }
         line.push_str(&format!(" C {} {} {} {} {}", ck, cl, dat.kind, dat.param, dat.len));
         emit(&mut out, line);
+    }
+    // --- build(): max_tx_size guard, limit = full size - 1 / = / + 1 and random
+    for _ in 0..(60 * scale) {
+        let nin = r.range(1, 4) as usize; let nout = r.range(0, 5) as usize;
+        let mut body = format!("I {}", nin);
+        for _ in 0..nin { body.push_str(&format!(" {} {}", r.range(2_000_000, 90_000_000), show_ma_shape(&vec![]))); }
+        body.push_str(&format!(" O {}", nout));
+        for _ in 0..nout {
+            let (akind, alen) = gen_addr(&mut r);
+            let mut od = OutD { akind, alen, coin: 0, ma: gen_ma(&mut r, false), dat: gen_dat(&mut r, false), sref: gen_sref(&mut r, false) };
+            od.coin = min_ada_of(&od, 4310).unwrap_or(1_000_000);
+            body.push_str(&format!(" {}", show_out(&od)));
+        }
+        body.push_str(&format!(" F {}", r.range(150_000, 5_000_000_000)));
+        // measure with a generous limit, then place the limit around the measured size
+        let probe: Vec<String> = format!("txsize 1000000 {}", body).split_whitespace().map(|s| s.to_string()).collect();
+        let res = guarded(move || exec(&probe));
+        let full: u64 = res.split_whitespace().nth(1).and_then(|x| x.parse().ok()).unwrap_or(300);
+        let mts = match r.below(5) { 0 => full.saturating_sub(1), 1 => full, 2 => full + 1, 3 => r.below(2 * full + 1), _ => 16384 };
+        emit(&mut out, format!("txsize {} {}", mts, body));
     }
     // top-up across 2^32 with a bundle whose value is 4997..5000 bytes at a 5-byte coin (mainnet parameters)
     for extra in 14..26usize {
